@@ -905,6 +905,9 @@ func (p *Parser) Parse() (Statement, error) {
 		FieldNames: selectStmt.FieldNames,
 		FieldTypes: selectStmt.FieldTypes,
 	}
+	if err = selectStmt.checkFieldCycles(); err != nil {
+		return nil, err
+	}
 
 	for p.tok != nil {
 		switch p.tok.Tp {
